@@ -139,6 +139,8 @@ def applyCmd (s : St) (c : Cmd) : St :=
   | .resMut ty => s.push [.flush, .batch ((s.tbl .res ty).map (fun h => Cmd.reactRes h.sys))]
   | .tryInsert e ty v => if s.alive e then { s with comp := upd s.comp e (aset (s.comp e) ty v) } else s
   | .insReact e ty =>
+    -- (after the F2 fix) react only if the component was actually inserted
+    if (alookup (s.comp e) ty).isNone then s else
     let rt : RType := ⟨.ins, ty⟩
     s.push [.flush, .batch ((entListeners s e rt).map (fun r => Cmd.reactEnt e rt r) ++ (s.tbl .ins ty).map (fun h => Cmd.reactEnt e rt h.sys))]
   | .mutReact e ty =>
